@@ -319,7 +319,7 @@ fn main() {
     check.set_extra(
         "exclusion_switches",
         json!({
-            "tame_profile": "half of the random roots: no materials before MoP, all groups share one non-empty name, doodad name offsets at the writer's fixed point, skybox only for WoD+, header bounds = union of group boxes, ASCII textures",
+            "tame_profile": "half of the random roots: doodad name offsets at the writer's fixed point (the other avoidable root defects were repaired in /repo)",
             "doodad_fixpoint": "independent switch (50%) for the doodad name offsets alone",
             "bounds": "75% union of group boxes, 25% arbitrary header bounds",
             "oracle_level": "MOMT size, MOHD size and MOGP header size are repaired in a copy so that the remaining clauses stay decidable; counters root_cases_evaluated_on_momt_patched_bytes / group_cases_compared_on_header_repaired_bytes",
